@@ -297,11 +297,14 @@ def resolveItem (elem root : Val) (g : Bool) : Item → RItem
       | [v] => .val v
       | vs => .multi vs
 
+/-- `o, ok := sstack[i-1].(*op); ok && o.getLeft`, read from the already resolved previous cell -/
+def RItem.nextGet : RItem → Bool
+  | .op o => o.getLeft
+  | _ => false
+
 def resolve (elem root : Val) : Bool → List Item → List RItem
   | _, [] => []
-  | g, it :: rest =>
-    let r := resolveItem elem root g it
-    r :: resolve elem root (match r with | .op o => o.getLeft | _ => false) rest
+  | g, it :: rest => resolveItem elem root g it :: resolve elem root (resolveItem elem root g it).nextGet rest
 
 /-- expandStack -/
 def expand : List RItem → Nat → List SItem
